@@ -145,10 +145,13 @@ func buildC11Table(rng *gen.RNG) []c11Op {
 	}
 	lookup := append([]string{}, names...)
 	lookup = append(lookup, "OCRA-1:HOTP-SHA1-7:C-QN10-PSHA256-S064-T5M", "OCRA-1:HOTP-SHA1-6:QN08-T30S", "OCRA-2:HOTP-SHA1-6:QN08", "garbage", "OCRA-1:HOTP-SHA512-8:QN08-T1M")
+	// spellings of one unregistered suite that differ only in letter case: each must report its own spelling
+	lookup = append(lookup, "OCRA-1:hotp-sha1-7:C-QN10-PSHA256-S064-T5M", "OCRA-1:HOTP-SHA1-7:c-qn10-psha256-s064-T5M", "OCRA-1:Hotp-Sha1-7:C-qn10-PSHA256-s064-T5M",
+		"OCRA-1:HOTP-SHA512-9:qn08", "OCRA-1:hotp-SHA512-9:QN08", "OCRA-1:HOTP-SHA512-9:QN08")
 	for _, n := range lookup {
 		n := n
 		want := "ERR"
-		if m, ok := ref.ParseSuiteName(n); ok && ref.SuiteUsable(m) {
+		if m, ok := ref.ParseSuiteNameFold(n); ok && ref.SuiteUsable(m) {
 			want = fmt.Sprintf("%+v", m)
 		}
 		ops = append(ops, c11Op{desc: "NewRawSuite(" + n + ")", want: want, exec: func() string {
